@@ -7,9 +7,9 @@ package main
 // are single Int leaves (opaque references).
 
 import (
-	"regexp"
 	"fmt"
 	"go/types"
+	"regexp"
 	"strings"
 	"sync"
 )
